@@ -239,6 +239,20 @@ Definition lin3 (k : knots) (x : Q) : Q :=
        then k_lo k + (k_src k - k_lo k) * (x - k_lo k) / (k_dst k - k_lo k)
        else k_src k + (k_up k - k_src k) * (x - k_dst k) / (k_up k - k_dst k).
 
+(* What polyharmonic_spline(order = 1) returns for three 1-D knots c0 c1 c2 with values
+   f0 f1 f2, PROVIDED linalg_solve hands back an exact solution (w, v) of its system
+   [[A B] [B^T 0]] [w; v] = [f; 0], A_ij = |c_i - c_j|, B = [c 1]  (_solve_interpolation,
+   full_matrix=True, phi(r) = r), the query being phi(|x - c|) w + [x 1] v
+   (_apply_interpolation).  Proofs.order1_spline_is_lin3 shows this is [lin3]. *)
+Definition spline1_eval (c0 c1 c2 w0 w1 w2 v1 v0 x : Q) : Q :=
+  Qabs (x - c0) * w0 + Qabs (x - c1) * w1 + Qabs (x - c2) * w2 + (x * v1 + v0).
+Definition spline1_solution (c0 c1 c2 f0 f1 f2 w0 w1 w2 v1 v0 : Q) : Prop :=
+  spline1_eval c0 c1 c2 w0 w1 w2 v1 v0 c0 == f0
+  /\ spline1_eval c0 c1 c2 w0 w1 w2 v1 v0 c1 == f1
+  /\ spline1_eval c0 c1 c2 w0 w1 w2 v1 v0 c2 == f2
+  /\ c0 * w0 + c1 * w1 + c2 * w2 == 0
+  /\ w0 + w1 + w2 == 0.
+
 Definition zseq (n : Z) : list Z := map Z.of_nat (seq 0 (Z.to_nat n)).
 
 (* t = (2 * arange(T) + 1) / T - 1; grid = spline(t) *)
